@@ -97,6 +97,31 @@ inline std::string json_escape(std::string const &s)
   return r;
 }
 
+// the plan a property executes as warm-up (so that a crash during warm-up has a replayable plan)
+inline std::string &warmup_text()
+{
+  static std::string t;
+  return t;
+}
+
+inline bool &worker_mode()
+{
+  static bool r = false;
+  return r;
+}
+
+// called by a property's warm-up BEFORE it executes its warm-up plan: if the process dies in the
+// warm-up (DIED -1), the driver uses the announced plan as the violation candidate
+inline void announce_warmup(Plan const &p)
+{
+  warmup_text() = p.str();
+  if (worker_mode())
+  {
+    std::printf("WARMUP-BEGIN\n%sWARMUP-END\n", warmup_text().c_str());
+    std::fflush(stdout);
+  }
+}
+
 inline bool &replay_mode()
 {
   static bool r = false;
@@ -186,7 +211,7 @@ inline int sim_main(int argc, char **argv)
   unsigned enum_every = 0; // enumerate single faults for every k-th fault-free plan
   unsigned distinct_sample = 1;
   std::uint64_t hashes_below = 0;
-  unsigned run_timeout = 20; // seconds of wall clock per run (watchdog only, never a verdict input)
+  unsigned run_timeout = 10; // seconds of wall clock per run (watchdog only, never a verdict input)
   for (int i = 1; i < argc; ++i)
   {
     std::string a = argv[i];
@@ -246,6 +271,7 @@ inline int sim_main(int argc, char **argv)
     std::fputs(p.str().c_str(), stdout);
     return 0;
   }
+  detail::worker_mode() = mode == "worker";
   prop::warmup();
   if (mode == "replay")
   {
